@@ -630,6 +630,9 @@ typedef struct ares_event_thread ares_event_thread_t;
 
 void          ares_event_thread_destroy(ares_channel_t *channel);
 ares_status_t ares_event_thread_init(ares_channel_t *channel);
+/*! Wake the event thread (if enabled) so it recalculates how long it may
+ *  sleep, to be called when a query became the earliest to time out. */
+void          ares_event_thread_wake_timeout(const ares_channel_t *channel);
 
 
 #ifdef _WIN32
